@@ -142,6 +142,7 @@ def _same(a, b):
 
 def run_G5(ctx, case):
     """rxa2_initial_hash: the byte stream fed to Blake2b-64 is RFC 9106 3.2 H0 input, in order, for symbolic parameters and field lengths"""
+    if case.get('stream'): return run_G5s(ctx, case)
     q = Q(30); mod = Module(ctx['ll']['argon2_core']); it = Interp(mod)
     tc = resolve(NamedT('struct.Argon2_Context', mod)); co = tc.layout()[0]
     c = it.mem.alloc(tc.size(), 'context'); F = {}
@@ -200,10 +201,73 @@ def run_G5(ctx, case):
             if ok: q.prove_eq([], g[2], z3.ZeroExt(32, bv(F[nm + 'len'], 32)), 'rxa2_initial_hash %s: %s hashed with its full length' % (case['name'], nm), 64)
     return result('G5', case['name'], q, paths=1, detail='%d blake2b_update calls == RFC 9106 3.2 H0 field sequence' % len(stream))
 
+def run_G5s(ctx, case):
+    """rxa2_initial_hash for concrete field lengths: the bytes that reach Blake2b-64 -- through init/update/final or a one-shot call, in whatever portions -- are the RFC 9106 3.2 H0 input"""
+    q = Q(30); mod = Module(ctx['ll']['argon2_core']); it = Interp(mod)
+    tc = resolve(NamedT('struct.Argon2_Context', mod)); co = tc.layout()[0]
+    c = it.mem.alloc(tc.size(), 'context'); F = {}; LEN = case['len']; B = {}
+    for nm in ('pwd', 'salt', 'secret', 'ad'):
+        it.mem.alloc(max(LEN[nm], 1), nm + '_buf'); B[nm] = [z3.BitVec('%s%d' % (nm, k), 8) for k in range(LEN[nm])]
+        for k in range(LEN[nm]): it.mem.store(Ptr(nm + '_buf', k), B[nm][k], 1)
+    for k_, nm in enumerate(CTX_FIELDS):
+        w = 8 if nm in ('out', 'pwd', 'salt', 'secret', 'ad', 'allocate_cbk', 'free_cbk') else 4
+        if nm in ('pwd', 'salt', 'secret', 'ad'): v = Ptr(nm + '_buf', 0) if not case['null'].get(nm) else Ptr(None, 0)
+        elif w == 8: v = Ptr(None, 0)
+        elif nm.endswith('len') and nm[:-3] in LEN: v = LEN[nm[:-3]]
+        else: v = z3.BitVec('ctx_' + nm, 32)
+        F[nm] = v; it.mem.store(Ptr('context', co[k_]), v, w)
+    ytype = z3.BitVec('type', 32); bh = it.mem.alloc(72, 'blockhash')
+    for k in range(72): it.mem.store(Ptr('blockhash', k), z3.BitVec('bh_stale%d' % k, 8), 1)
+    hashes = []       # one entry per Blake2b computation: dict(outlen, bytes, out)
+    def rd(s, p, n):
+        if not is_c(n): raise Exception('hash input of symbolic length in a concrete-length job')
+        return [s.mem.load(Ptr(p.obj, p.off + k), 1) for k in range(n)] if n else []
+    def h_init(s, a): hashes.append(dict(state=a[0], outlen=a[1], bytes=[], out=None)); return 0
+    def cur(S):
+        c_ = [h for h in hashes if h.get('state') is not None and h['state'].obj == S.obj and h['state'].off == S.off and h['out'] is None]
+        if not c_: raise Exception('blake2b_update / blake2b_final on a state that was not initialised')
+        return c_[-1]
+    def h_update(s, a): cur(a[0])['bytes'] += rd(s, a[1], a[2]); return 0
+    def h_final(s, a):
+        h = cur(a[0]); h['out'] = a[1]; h['final_len'] = a[2]
+        if is_c(a[2]):
+            for k in range(a[2]): s.mem.store(Ptr(a[1].obj, a[1].off + k), z3.BitVec('H0_%d' % k, 8), 1)
+        return 0
+    def h_oneshot(s, a):
+        out, outlen, inp, inlen, key, keylen = a
+        hashes.append(dict(state=None, outlen=outlen, bytes=rd(s, inp, inlen), out=out, final_len=outlen, keylen=keylen))
+        if is_c(outlen):
+            for k in range(outlen): s.mem.store(Ptr(out.obj, out.off + k), z3.BitVec('H0_%d' % k, 8), 1)
+        return 0
+    it.hooks[mod.find('blake2b_init')] = h_init; it.hooks[mod.find('blake2b_update')] = h_update; it.hooks[mod.find('blake2b_final')] = h_final
+    for nm in ('blake2b', 'randomx_blake2b'): it.hooks[nm] = h_oneshot
+    it.call(mod.find('rxa2_initial_hash'), [bh, c, ytype])
+    def chk(cnd, what):
+        q.n += 1; q.unsat += bool(cnd); q.sat += (not cnd)
+        if not cnd: q.failed.append(('rxa2_initial_hash %s: %s' % (case['name'], what), {}))
+    chk(len(hashes) == 1, 'exactly one Blake2b computation (%d seen)' % len(hashes))
+    if len(hashes) != 1: return result('G5', case['name'], q, paths=1)
+    h = hashes[0]
+    chk(is_c(h['outlen']) and h['outlen'] == 64 and h.get('final_len') == 64 and not h.get('keylen'), 'H0 is an unkeyed 64-byte Blake2b')
+    chk(isinstance(h['out'], Ptr) and h['out'].obj == 'blockhash' and h['out'].off == 0, 'digest written to blockhash[0..64)')
+    exp = []
+    for v in (F['lanes'], F['outlen'], F['m_cost'], F['t_cost'], F['version'], ytype): exp += _le32(v)
+    for nm in ('pwd', 'salt', 'secret', 'ad'):
+        exp += _le32(LEN[nm])
+        if not case['null'].get(nm): exp += B[nm]
+    chk(len(h['bytes']) == len(exp), '%d bytes hashed, RFC 9106 3.2 says %d for these field lengths' % (len(h['bytes']), len(exp)))
+    if len(h['bytes']) == len(exp):
+        for k, (g, e) in enumerate(zip(h['bytes'], exp)): q.prove_eq([], g, e, 'rxa2_initial_hash %s: hashed byte %d == byte %d of LE32(p)|LE32(T)|LE32(m)|LE32(t)|LE32(v)|LE32(y)|LE32(|P|)|P|LE32(|S|)|S|LE32(|K|)|K|LE32(|X|)|X' % (case['name'], k, k), 8)
+    return result('G5', case['name'], q, paths=1, detail='%d bytes hashed == RFC 9106 3.2 H0 input' % len(exp))
+
 def jobs_G5(ctx):
     J = [dict(name='RandomX shape (key, salt; no secret, no associated data)', len=dict(pwd=5, salt=8, secret=0, ad=0), null=dict(secret=True, ad=True)),
          dict(name='all four arrays present', len=dict(pwd=3, salt=8, secret=2, ad=1), null={}),
          dict(name='empty key passed as a non-null pointer', len=dict(pwd=0, salt=8, secret=0, ad=0), null=dict(secret=True, ad=True))]
+    # concrete field lengths, byte-stream oracle (independent of how the implementation portions the input): key lengths around the Blake2b block boundary of the H0 input (48 + |key| bytes)
+    for n in ((0, 32, 60, 80, 81, 200) if ctx['tier'] == 'quick' else tuple(range(0, 100)) + (127, 128, 129, 200, 255, 256, 257, 400)):
+        J.append(dict(name='byte stream, key of %d bytes' % n, stream=True, len=dict(pwd=n, salt=8, secret=0, ad=0), null=dict(secret=True, ad=True)))
+    J.append(dict(name='byte stream, all four arrays (70, 16, 40, 9 bytes)', stream=True, len=dict(pwd=70, salt=16, secret=40, ad=9), null={}))
     return J
 
 def run_G6(ctx, case):
@@ -313,7 +377,7 @@ def jobs_B6(ctx):
 UNITS['blake2b_ni_long'] = dict(src='src/blake2/blake2b.c', inline=False)
 LEMMAS['G5'] = dict(jobs=jobs_G5, run=run_G5, units=['argon2_core'], functions=['rxa2_initial_hash'],
     doc='the initial hash H0: the sequence of bytes fed to a 64-byte Blake2b is exactly RFC 9106 3.2 (p, T, m, t, v, y, then each of P, S, K, X preceded by its LE32 length), digest to blockhash[0..64)',
-    bound='arrays of fixed small lengths per job (key 0,3,5 bytes; salt 8); all 32-bit parameters and the type symbolic; NULL secret/ad as RandomX passes them', symbolic='lanes, outlen, m_cost, t_cost, version, type, all length fields, array contents', stubs=['blake2b_init/update/final := call recorders (B2-B4)'])
+    bound='(a) symbolic length fields, one update per field (key buffers of 0,3,5 bytes; salt 8); (b) concrete field lengths with a byte-stream oracle that does not depend on how the input is portioned or which Blake2b entry point is used: key lengths 0,32,60,80,81,200 (quick) / 0..99,127..129,200,255..257,400, salt 8, NULL secret/ad as RandomX passes them, and one job with all four arrays; all 32-bit parameters and the type symbolic', symbolic='lanes, outlen, m_cost, t_cost, version, type, length fields (a), array contents', stubs=['blake2b_init/update/final and the one-shot blake2b := recorders of the bytes hashed (B2-B4)'])
 LEMMAS['G6'] = dict(jobs=lambda ctx: [dict(lanes=1, lane_length=8), dict(lanes=2, lane_length=8)], run=run_G6, units=['argon2_core'], functions=['rxa2_fill_first_blocks', 'load_block', 'store32'],
     doc="first two blocks of every lane: B[l][j] = H'^(1024)(H0 || LE32(j) || LE32(l)) stored as 128 little-endian words at memory[l*lane_length + j]; nothing else written",
     bound='lanes 1 (RandomX) and 2, lane length 8; H0 and stale memory symbolic', symbolic='H0, stale blockhash tail, stale memory', stubs=["blake2b_long := fresh output bytes, arguments recorded (B6)"])
